@@ -22,9 +22,12 @@
    result codes: 0 agree, 1 the calls differ, 2 a gauge outside the region where
    int64(value) is defined (generator error), 3 a rendering without the assumed
    shape, 4 the bucket pairs of a histogram are not Buckets.pairs of its
-   specification, 9 malformed case. *)
+   specification, 5 a rendering of time.Duration.String() observed from the Go runtime differs
+   from Model/DurString.v (the model of it that the theorems about duration buckets use: the
+   stat names are computed with the model, the observed renderings only checked against it),
+   9 malformed case. *)
 From Coq Require Import ZArith List Bool.
-From Tally Require Import Base.Obs Model.Buckets Model.Statsd.
+From Tally Require Import Base.Obs Model.Buckets Model.Statsd Model.DurString.
 Import ListNotations.
 Open Scope Z_scope.
 
@@ -103,7 +106,8 @@ Definition check (c : gcase) : Z :=
       if negb (forallb op_ok ops) then 2
       else if negb (forallb (fun e => shapeb (hd [] (es e))) t) then 3
       else if negb (groups_ok [] 0 inp) then 4
-      else if evs_eqb (map ev_of_out (run (lookf t) (lookd t) (Cfg rate prec) ops)) (gobserved c)
+      else if negb (forallb (fun e => negb (ek e =? 51) || zs_eqb (dur_string (hd 0 (ei e))) (hd [] (es e))) t) then 5
+      else if evs_eqb (map ev_of_out (run (lookf t) dur_string (Cfg rate prec) ops)) (gobserved c)
       then 0 else 1
   | _ => 9
   end.
